@@ -63,6 +63,10 @@ def check(run):
             continue
         if not f.get("file", "").startswith(facts.repo + "/src/") or "/src/bin/" in f.get("file", ""):
             continue
+        if f.get("dtor") and f.get("cls"):
+            from ..normalize import helper_type
+            if helper_type(facts, f["cls"]):
+                continue        # a guard's action: written out (and judged) where the guard object lives
         for c in ir.calls_in(f["body"]):
             cal = c.get("callee") or {}
             if is_prim_call(c) or kbs.get((cal.get("qn"), tuple(cal.get("sig", [])))) in E:
